@@ -22,7 +22,16 @@ type Step struct {
 	B       *lib.Bundle
 	L1      *core.L1Head
 	PruneTo uint64
-	After   World
+	// batch-rotation threshold of a prune step (0 = pruneBatchBytes: one batch per block)
+	BatchBytes int
+	After      World
+}
+
+func (s *Step) batchBytes() int {
+	if s.BatchBytes > 0 {
+		return s.BatchBytes
+	}
+	return pruneBatchBytes
 }
 
 func (s *Step) String() string {
@@ -131,7 +140,7 @@ func (n *Node) exec(s *Step) error {
 			n.bc = n.sc.open(n.fdb)
 			return nil
 		case "prune":
-			_, _, err := pruner.PruneUpto(context.Background(), n.fdb, s.PruneTo, pruneBatchBytes)
+			_, _, err := pruner.PruneUpto(context.Background(), n.fdb, s.PruneTo, s.batchBytes())
 			return err
 		}
 		return fmt.Errorf("unknown op %q", s.Op)
@@ -209,7 +218,8 @@ func eventfulSpec(g *lib.ChainGen, r *lib.RNG, version string) *lib.BlockSpec {
 
 // world captures the generator's present chain, with a probe child.
 func (b *builder) world() World {
-	w := World{Chain: append([]*lib.Bundle(nil), b.g.Bundles...), L1: b.l1, Floor: b.flr}
+	w := World{Chain: append([]*lib.Bundle(nil), b.g.Bundles...), L1: b.l1, Floor: b.flr,
+		States: append([]*lib.AbsState(nil), b.g.States...)}
 	if len(b.g.States) > 0 {
 		w.State = b.g.HeadState()
 	}
@@ -269,11 +279,14 @@ func (b *builder) l1head() {
 
 func (b *builder) simple(op string) { b.push(Step{Op: op}) }
 
-func (b *builder) prune(to uint64) {
+func (b *builder) prune(to uint64) { b.pruneWith(to, 0) }
+
+// pruneWith: a prune with an explicit batch threshold (a huge one = a single batch).
+func (b *builder) pruneWith(to uint64, batchBytes int) {
 	if to > b.flr {
 		b.flr = to
 	}
-	b.push(Step{Op: "prune", PruneTo: to})
+	b.push(Step{Op: "prune", PruneTo: to, BatchBytes: batchBytes})
 }
 
 // fastForward stores n blocks without transactions on the generator and on a plain destination
